@@ -428,10 +428,17 @@ class Gen:
 
     def setup(self, conn):
         seq = self._seq()
+        down = getattr(self, "dp_is_down", False)
         self.emit(conn, P.message(P.AS_REQ, seq, [P.node_id_v4(peer_ip(conn)), P.recovery_ts(2000)]),
-                  {"op": "setup", "seq": seq, "req": P.AS_REQ, "wf": True})
-        if conn not in self.dead:
+                  {"op": "setup", "seq": seq, "req": P.AS_REQ, "wf": True, "expect": "reject" if down else "accept"})
+        if conn not in self.dead and not down:
             self.assoc[conn] = True
+
+    def datapath(self, up):
+        """the BESS daemon goes away / comes back (only in the fixed scenarios; not part of the Coq-replayed histories)"""
+        self.dp_is_down = not up
+        self.events.append({"k": "dp_up" if up else "dp_down", "conn": 0})
+        self.intents.append({"op": "datapath", "up": up, "conn": 0})
 
     def release(self, conn):
         seq = self._seq()
@@ -804,7 +811,9 @@ def mon_c02(case, intents, obs):
         if "panic" in o or o.get("blocked"):
             break
         rs = replies_of(o)
-        if it.get("op") in ("teardown", "restart", "report"):
+        if it.get("op") in ("teardown", "restart", "report", "datapath"):
+            if it.get("op") == "datapath" and it["up"] != (o.get("dp_state") == "READY"):
+                out.append(("harness:datapath-state", f"event {i}: the gRPC channel is {o.get('dp_state')} after the datapath went {'up' if it['up'] else 'down'}", i))
             continue
         req = it.get("req")
         if req in (P.SR_RSP, P.HB_RSP, P.AS_RSP, P.SE_RSP, P.SM_RSP, P.SD_RSP, P.PFD_RSP, P.AR_RSP):
@@ -1249,6 +1258,21 @@ def soak_scenarios(rng):
         for e in g.events[2:-4]:
             e["q"] = True
         out.append((f"1600-end-marker-updates/end_marker={em}", {"cfg": g.cfg, "events": g.events}, g.intents, 4))
+    # the datapath goes away and comes back: an association is accepted exactly when it is connected at that moment
+    g = Gen(rng)
+    g.setup(0)
+    l = g.establish(0, npairs=1, nqers=1, chv4=False, choose=False)
+    g.heartbeat(0)
+    g.datapath(False)
+    g.heartbeat(0)
+    g.setup(1)                        # rejected: no datapath behind the agent
+    g.heartbeat(1)
+    g.datapath(True)
+    g.setup(1)
+    l2 = g.establish(1, npairs=1, nqers=1, chv4=False, choose=False)
+    g.delete(l2)
+    g.delete(l)
+    out.append(("datapath-down-and-up", {"cfg": g.cfg, "events": g.events}, g.intents, 4))
     for hb in (True, False):
         g = Gen(rng, cfg=default_cfg(hb_timer=hb))
         for _ in range(130):
